@@ -1,6 +1,6 @@
 //@ unit translate_ops
 //@ serves C01
-//@ must_verify OpsMap::push OpsMap::replace OpsMap::len lemma_appended_is_prefix bin_add_arm bin_sub_arm bin_div_arm bin_mul_arm bin_mod_arm bin_equal_arm bin_gt_arm bin_lt_arm bin_gteq_arm bin_lteq_arm bin_noteq_arm bin_rematch_arm bin_notrematch_arm bin_is_arm bin_and_arm bin_or_arm not_arm grouped_arm cast_arm fail_arm range_arm convert_arm map_arm filter_arm reduce_arm func_arm select_arm stmt_let_arm stmt_constraint_arm stmt_expr_arm stmt_assert_arm stmt_out_arm main
+//@ must_verify OpsMap::push OpsMap::replace OpsMap::len lemma_appended_is_prefix translate_template_part translate_stmt translate_value translate_copy bin_add_arm bin_sub_arm bin_div_arm bin_mul_arm bin_mod_arm bin_equal_arm bin_gt_arm bin_lt_arm bin_gteq_arm bin_lteq_arm bin_noteq_arm bin_rematch_arm bin_notrematch_arm bin_is_arm bin_and_arm bin_or_arm not_arm grouped_arm cast_arm fail_arm range_arm convert_arm map_arm filter_arm reduce_arm func_arm select_arm format_single_arm module_arm include_arm import_arm simple_arm copy_arm call_arm bin_dot_arm bin_in_arm constraint_arm
 //@ include prelude/head.rs
 use std::rc::Rc;
 
@@ -15,8 +15,8 @@ use std::rc::Rc;
 
 verus! {
 //@ include prelude/core.rs
-//@ opaque Position Expression VPath VShapeMap VLinks ConstraintArmType Scope VBoxError Statement
-//@ clone_spec Position
+//@ opaque Position VPath VShapeMap VLinks Scope VBoxError Val
+//@ clone_spec Position Expression
 
 //@ extract src/build/opcode/mod.rs :: enum Primitive
 //@   rule R0
@@ -25,6 +25,9 @@ verus! {
 //@   rule R0
 //@ end
 //@ extract src/build/opcode/mod.rs :: enum Hook
+//@   rule R0
+//@ end
+//@ extract src/build/opcode/mod.rs :: enum ConstraintArmType
 //@   rule R0
 //@ end
 //@ extract src/build/opcode/mod.rs :: enum Op
@@ -55,7 +58,7 @@ verus! {
 //@   >>>
 //@ end
 
-// ---------- the AST pieces the arms take apart (real definitions; Expression itself stays opaque) ----------
+// ---------- the AST (real definitions) ----------
 //@ extract src/ast/mod.rs :: enum TokenType
 //@   rule R0
 //@ end
@@ -115,7 +118,48 @@ verus! {
 //@ extract src/ast/mod.rs :: enum TemplatePart
 //@   rule R0
 //@ end
+//@ extract src/ast/mod.rs :: struct ListDef
+//@   rule R0
+//@ end
+//@ extract src/ast/mod.rs :: enum Value
+//@   rule R0
+//@ end
+//@ extract src/ast/mod.rs :: struct CopyDef
+//@   rule R0
+//@ end
+//@ extract src/ast/mod.rs :: struct CallDef
+//@   rule R0
+//@ end
+//@ extract src/ast/mod.rs :: enum FuncOpDef
+//@   rule R0
+//@ end
+//@ extract src/ast/mod.rs :: struct DebugDef
+//@   rule R0
+//@ end
+//@ extract src/ast/mod.rs :: struct ConstraintRangeDef
+//@   rule R0
+//@ end
+//@ extract src/ast/mod.rs :: enum ConstraintArm
+//@   rule R0
+//@ end
+//@ extract src/ast/mod.rs :: struct ConstraintDef
+//@   rule R0
+//@ end
+//@ extract src/ast/mod.rs :: struct ModuleDef
+//@   rule R0
+//@ end
+//@ extract src/ast/mod.rs :: enum Expression
+//@   rule R0
+//@ end
+//@ extract src/ast/mod.rs :: enum Statement
+//@   rule R0
+//@ end
 
+impl Value {
+    // ast::Value::pos (R8): only feeds the position table
+    #[verifier::external_body]
+    pub fn pos(&self) -> &Position { unimplemented!() }
+}
 impl Expression {
     // ast::Expression::pos (R8): only feeds the position table
     #[verifier::external_body]
@@ -178,6 +222,39 @@ proof fn lemma_appended_is_prefix(a: OpsMap, b: OpsMap)
 {
     assert(b.ops@.subrange(0, a.ops@.len() as int) =~= a.ops@);
     assert(b.pos@.subrange(0, a.pos@.len() as int) =~= a.pos@);
+}
+
+// ---------- sequences of fragments (tuple fields, list elements, call arguments) ----------
+// The boundaries between the items are ghost state: `bs[c]` is the index behind item c's last op; item c starts where
+// item c-1 ended.  `case_no` / `ends` / `at` are always true: they are only the handles by which the prover picks a
+// case index, a boundary list, an index (a trigger on `bs[c]` itself would loop through `seg_start`).
+pub open spec fn case_no(c: int) -> bool { true }
+pub open spec fn ends(bs: Seq<int>) -> bool { true }
+pub open spec fn at(m: int) -> bool { true }
+pub open spec fn seg_start(start: int, bs: Seq<int>, c: int) -> int { if c <= 0 { start } else { bs[c - 1] } }
+// the first `done` fields `name = e`:  Sym(name) | code(e) | Field   (vm.rs `op_field` pops value, name, tuple)
+pub open spec fn fields_at(flds: Seq<(Token, Option<Expression>, Expression)>, s: Seq<Op>, start: int, bs: Seq<int>, done: int) -> bool {
+    &&& bs.len() == done && 0 <= done <= flds.len()
+    &&& forall|c: int| 0 <= c < done && #[trigger] case_no(c) ==> {
+            let st = seg_start(start, bs, c);
+            &&& start <= st && st + 2 < bs[c] <= s.len()
+            &&& s[st] == Op::Sym(flds[c].0.fragment)
+            &&& code_at(flds[c].2, s, st + 1, bs[c] - 1)
+            &&& s[bs[c] - 1] == Op::Field
+        }
+    &&& 0 <= start <= seg_start(start, bs, done) <= s.len()
+}
+// the first `done` expressions back to back, each followed by `Element` if `element` (vm.rs `op_element` pops value, list)
+pub open spec fn exprs_at(es: Seq<Expression>, s: Seq<Op>, start: int, bs: Seq<int>, done: int, element: bool) -> bool {
+    &&& bs.len() == done && 0 <= done <= es.len()
+    &&& forall|c: int| 0 <= c < done && #[trigger] case_no(c) ==> {
+            let st = seg_start(start, bs, c);
+            let e = if element { bs[c] - 1 } else { bs[c] };
+            &&& start <= st && e < bs[c] + 1 && bs[c] <= s.len()
+            &&& code_at(es[c], s, st, e)
+            &&& element ==> s[bs[c] - 1] == Op::Element
+        }
+    &&& 0 <= start <= seg_start(start, bs, done) <= s.len()
 }
 
 // AST::translate_expr, the recursive call (R8) - ASSUMED, and nothing else: it appends at least one op and never
@@ -473,7 +550,7 @@ $BODY
         ensures unary_emits(*old(ops), *final(ops), *expr, Seq::<Op>::empty())
 //@   >>>
 //@   mutant grouped_extra_op "Self::translate_expr(*expr, ops, root);" => "let p = expr.pos().clone(); Self::translate_expr(*expr, ops, root); ops.push(Op::Pop, p);" expect grouped_arm
-//@   mutant grouped_twice "Self::translate_expr(*expr, ops, root);" => "Self::translate_expr(*expr.clone(), ops, root); Self::translate_expr(*expr, ops, root);" expect grouped_arm
+//@   mutant grouped_noop_before "Self::translate_expr(*expr, ops, root);" => "ops.push(Op::Noop, expr.pos().clone()); Self::translate_expr(*expr, ops, root);" expect grouped_arm
 //@ end
 
 //@ extract src/build/opcode/translate.rs :: impl AST :: fn translate_expr :: arm "Expression::Cast(cast_def) =>"
@@ -540,8 +617,9 @@ $BODY
 //@   sig <<<
         ensures range_emits(*old(ops), *final(ops), def)
 //@   >>>
-//@   mutant range_start_end_swapped "Self::translate_expr(*def.end, ops, root); if" => "Self::translate_expr(*def.start, ops, root); if" expect range_arm
-//@   mutant range_step_last "Self::translate_expr(*def.start, ops, root); ops.push(Op::Runtime(Hook::Range), def.pos);" => "ops.push(Op::Runtime(Hook::Range), def.pos); Self::translate_expr(*def.start, ops, root);" expect range_arm
+//@   mutant range_start_end_swapped "Self::translate_expr(*def.end, ops, root); if let Some(expr) = def.step { Self::translate_expr(*expr, ops, root); } else { ops.push(Op::Val(Primitive::Empty), def.pos.clone()); } Self::translate_expr(*def.start, ops, root);" => "Self::translate_expr(*def.start, ops, root); if let Some(expr) = def.step { Self::translate_expr(*expr, ops, root); } else { ops.push(Op::Val(Primitive::Empty), def.pos.clone()); } Self::translate_expr(*def.end, ops, root);" expect range_arm
+//@   mutant range_step_first "Self::translate_expr(*def.end, ops, root); if let Some(expr) = def.step { Self::translate_expr(*expr, ops, root); } else { ops.push(Op::Val(Primitive::Empty), def.pos.clone()); }" => "if let Some(expr) = def.step { Self::translate_expr(*expr, ops, root); } else { ops.push(Op::Val(Primitive::Empty), def.pos.clone()); } Self::translate_expr(*def.end, ops, root);" expect range_arm
+//@   mutant range_hook_before_start "Self::translate_expr(*def.start, ops, root); ops.push(Op::Runtime(Hook::Range), def.pos);" => "ops.push(Op::Runtime(Hook::Range), def.pos); Self::translate_expr(*def.start, ops, root);" expect range_arm
 //@   mutant range_default_step_missing "ops.push(Op::Val(Primitive::Empty), def.pos.clone());" => "" expect range_arm
 //@   mutant range_wrong_hook "Op::Runtime(Hook::Range)" => "Op::Runtime(Hook::Map)" expect range_arm
 //@ end
@@ -557,7 +635,7 @@ $BODY
         ensures bracketed_emits(*old(ops), *final(ops), Op::Val(Primitive::Str(def.converter.fragment)), *def.target, Op::Runtime(Hook::Convert))
 //@   >>>
 //@   mutant convert_wrong_hook "Op::Runtime(Hook::Convert)" => "Op::Runtime(Hook::Out)" expect convert_arm
-//@   mutant convert_target_dropped "Self::translate_expr(*def.target, ops, root);" => "" expect convert_arm
+//@   mutant convert_name_after_target "ops.push( Op::Val(Primitive::Str(def.converter.fragment)), def.converter.pos, ); Self::translate_expr(*def.target, ops, root);" => "Self::translate_expr(*def.target, ops, root); ops.push(Op::Val(Primitive::Str(def.converter.fragment)), def.converter.pos);" expect convert_arm
 //@ end
 
 // map / filter / reduce: function, [accumulator,] target, hook (runtime.rs pops target, [acc,] func)
@@ -586,7 +664,7 @@ $BODY
         ensures funcop2_emits(*old(ops), *final(ops), *def.func, *def.target, Hook::Map)
 //@   >>>
 //@   mutant map_is_filter "Op::Runtime(Hook::Map)" => "Op::Runtime(Hook::Filter)" expect map_arm
-//@   mutant map_func_dropped "Self::translate_expr(*def.func, ops, root);" => "" expect map_arm
+//@   mutant map_target_first "Self::translate_expr(*def.func, ops, root); Self::translate_expr(*def.target, ops, root);" => "Self::translate_expr(*def.target, ops, root); Self::translate_expr(*def.func, ops, root);" expect map_arm
 //@ end
 //@ extract src/build/opcode/translate.rs :: impl AST :: fn translate_expr :: arm "FuncOpDef::Filter(def) =>"
 //@   wrap <<<
@@ -598,6 +676,7 @@ $BODY
         ensures funcop2_emits(*old(ops), *final(ops), *def.func, *def.target, Hook::Filter)
 //@   >>>
 //@   mutant filter_is_map "Op::Runtime(Hook::Filter)" => "Op::Runtime(Hook::Map)" expect filter_arm
+//@   mutant filter_target_first "Self::translate_expr(*def.func, ops, root); Self::translate_expr(*def.target, ops, root);" => "Self::translate_expr(*def.target, ops, root); Self::translate_expr(*def.func, ops, root);" expect filter_arm
 //@ end
 //@ extract src/build/opcode/translate.rs :: impl AST :: fn translate_expr :: arm "FuncOpDef::Reduce(def) =>"
 //@   wrap <<<
@@ -669,11 +748,9 @@ pub open spec fn case_start(v: int, js: Seq<usize>, c: int) -> int { if c <= 0 {
 pub open spec fn increasing(js: Seq<usize>) -> bool {
     forall|c1: int, c2: int| 0 <= c1 < c2 < js.len() ==> js[c1] < js[c2]
 }
-// (always true: only the handle by which the prover picks a case - a trigger on `js[c]` would loop through `case_start`)
-pub open spec fn case_no(c: int) -> bool { true }
 // case c occupies s[st ..= e]; the first `patched` exit jumps have been filled in, the others are still `Noop`
-pub open spec fn case_ok(cases: Seq<(Token, Option<Expression>, Expression)>, s: Seq<Op>, st: int, e: int, c: int, patched: int) -> bool {
-    &&& 0 <= st && st + 2 < e < s.len()
+pub open spec fn case_ok(cases: Seq<(Token, Option<Expression>, Expression)>, s: Seq<Op>, v: int, st: int, e: int, c: int, patched: int) -> bool {
+    &&& 0 <= v <= st && st + 2 < e < s.len()
     &&& s[st] == Op::Sym(cases[c].0.fragment)
     &&& (s[st + 1] matches Op::SelectJump(j) && (small(s) ==> continues_at(st + 1, j, e + 1)))
     &&& code_at(cases[c].2, s, st + 2, e)
@@ -685,8 +762,8 @@ pub open spec fn select_cases(def: SelectDef, s: Seq<Op>, n0: int, v: int, js: S
     &&& js.len() == done && 0 <= done <= cases.len()
     &&& code_at(*def.val, s, n0, v)
     &&& increasing(js)
-    &&& forall|c: int| 0 <= c < done && #[trigger] case_no(c) ==> case_ok(cases, s, case_start(v, js, c), js[c] as int, c, 0)
-    &&& s.len() == case_start(v, js, done)
+    &&& forall|c: int| 0 <= c < done && #[trigger] case_no(c) ==> case_ok(cases, s, v, case_start(v, js, c), js[c] as int, c, 0)
+    &&& v <= s.len() == case_start(v, js, done)
 }
 // the whole select, with the first `patched` exit jumps filled in
 pub open spec fn select_layout(def: SelectDef, s: Seq<Op>, n0: int, v: int, js: Seq<usize>, patched: int) -> bool {
@@ -696,7 +773,7 @@ pub open spec fn select_layout(def: SelectDef, s: Seq<Op>, n0: int, v: int, js: 
     &&& js.len() == cases.len() && 0 <= patched <= cases.len()
     &&& code_at(*def.val, s, n0, v)
     &&& increasing(js)
-    &&& forall|c: int| 0 <= c < cases.len() && #[trigger] case_no(c) ==> case_ok(cases, s, case_start(v, js, c), js[c] as int, c, patched)
+    &&& forall|c: int| 0 <= c < cases.len() && #[trigger] case_no(c) ==> case_ok(cases, s, v, case_start(v, js, c), js[c] as int, c, patched)
     &&& v <= p < n && s[p] == Op::Pop
     &&& match def.default {
             Some(d) => code_at(*d, s, p + 1, n),
@@ -730,9 +807,281 @@ $BODY
                         it2.seq() == jumps@,
                         appended(*old(ops), *ops),
                         end + 1 == ops.ops@.len(),
+                        case_no(it2.index@),    // (true) makes the prover look at the case whose jump is patched next
                         exists|v: int| #[trigger] frag(*def.val, old(ops).ops@.len() as int, v)
                             && select_layout(def, ops.ops@, old(ops).ops@.len() as int, v, jumps@, it2.index@),
 //@   >>>
+//@   mutant select_next_case_offset_plus_one "let jptr = ops.len() - idx - 1;" => "let jptr = ops.len() - idx;" expect select_arm
+//@   mutant select_next_case_lands_on_exit_jump "let jptr = ops.len() - idx - 1;" => "let jptr = ops.len() - idx - 2;" expect select_arm
+//@   mutant select_exit_offset_plus_one "let idx = end - i;" => "let idx = end - i + 1;" expect select_arm
+//@   mutant select_exit_from_start "let idx = end - i;" => "let idx = end;" expect select_arm
+//@   mutant select_exit_slot_off "jumps.push(ops.len() - 1);" => "jumps.push(ops.len() - 2);" expect select_arm
+//@   mutant select_value_not_dropped "ops.push(Op::Pop, def.pos.clone());" => "" expect select_arm
+//@   mutant select_name_after_test "ops.push(Op::Sym(key.fragment), key.pos.clone()); ops.push(Op::Noop, key.pos);" => "ops.push(Op::Noop, key.pos.clone()); ops.push(Op::Sym(key.fragment), key.pos);" expect select_arm
+//@   mutant select_exit_conditional "ops.replace(i, Op::Jump(idx as i32));" => "ops.replace(i, Op::JumpIfTrue(idx as i32));" expect select_arm
+//@   mutant select_default_before_cases "Self::translate_expr(*default, ops, root);" => "ops.push(Op::Noop, def.pos.clone()); Self::translate_expr(*default, ops, root);" expect select_arm
+//@ end
+
+// ---------- format string with a single argument:  "..@{item.x}.." % expr ----------
+// std models (R9', as in unit fmt_arms): `vec.drain(0..)` yields the elements front to back; `reverse`.
+pub struct VDrain<T> { pub rest: Vec<T> }
+#[verifier::external_body]
+pub fn verif_drain_all<T>(v: &mut Vec<T>) -> (r: VDrain<T>)
+    ensures r.rest@ == old(v)@, final(v)@.len() == 0
+{ unimplemented!() }
+impl<T> VDrain<T> {
+    #[verifier::external_body]
+    pub fn next(&mut self) -> (r: Option<T>)
+        ensures
+            old(self).rest@.len() > 0 ==> r == Some(old(self).rest@[0]) && final(self).rest@ == old(self).rest@.drop_first(),
+            old(self).rest@.len() == 0 ==> r is None && final(self).rest@ == old(self).rest@,
+    { unimplemented!() }
+}
+pub assume_specification<T> [<[T]>::reverse] (s: &mut [T])
+    ensures final(s)@ == old(s)@.reverse();
+#[verifier::external_body]
+pub fn verif_chars_to_string(s: Vec<char>) -> String { unimplemented!() }
+
+pub open spec fn no_ph_parts(s: Seq<TemplatePart>) -> bool { forall|k: int| 0 <= k < s.len() ==> !(#[trigger] s[k] is PlaceHolder) }
+// whether the `@{..}` template parser accepts a template (the parser is a deterministic function of the text)
+pub uninterp spec fn expr_template_ok(t: Seq<char>) -> bool;
+pub struct ExpressionTemplate();
+impl ExpressionTemplate {
+    pub fn new() -> Self { ExpressionTemplate() }
+    // build/format.rs ExpressionTemplate::parse (R8) - ASSUMED here, PROVED in unit fmt_arms: on success the part list
+    // is not empty and holds no `@` placeholders (only literal pieces and `@{expr}` parts).
+    #[verifier::external_body]
+    pub fn parse(&self, input: &str) -> (r: Result<Vec<TemplatePart>, VBoxError>)
+        ensures
+            r is Ok == expr_template_ok(input@),
+            r matches Ok(parts) ==> parts@.len() >= 1 && no_ph_parts(parts@),
+    { unimplemented!() }
+}
+
+// One piece of a template: a literal, or an argument / embedded expression followed by `Render`.  Like every
+// translate_* function it only appends.
+//@ extract src/build/opcode/translate.rs :: impl AST :: fn translate_template_part
+//@   no_impl
+//@   subst "fn translate_template_part<EI: Iterator<Item = Expression>>(" => "fn translate_template_part("
+//@   subst "elems: &mut EI," => "elems: &mut VDrain<Expression>,"
+//@   subst "root: &Path," => "root: &VPath,"
+//@   subst "let part: String = s.into_iter().map(|c| c.to_string()).collect();" => "let part: String = verif_chars_to_string(s);"
+//@   subst all ".into()" => ".vinto()"
+//@   subst all "Self::translate_expr" => "translate_expr"
+//@   sig <<<
+        requires
+            // the two `unreachable!()`s and the `unwrap()` (discharged for the list form in unit fmt_arms)
+            part is PlaceHolder ==> place_holder && old(elems).rest@.len() > 0,
+            part is Expression ==> !place_holder,
+        ensures
+            appended(*old(ops), *final(ops)),
+            match part {
+                TemplatePart::Str(_) => final(ops).ops@.len() == old(ops).ops@.len() + 1 && final(ops).ops@.last() is Val,
+                TemplatePart::PlaceHolder(_) => code_at(old(elems).rest@[0], final(ops).ops@, old(ops).ops@.len() as int, final(ops).ops@.len() - 1)
+                                                && final(ops).ops@.last() == Op::Render,
+                TemplatePart::Expression(e) => code_at(e, final(ops).ops@, old(ops).ops@.len() as int, final(ops).ops@.len() - 1)
+                                                && final(ops).ops@.last() == Op::Render,
+            },
+            part is PlaceHolder ==> final(elems).rest@ == old(elems).rest@.drop_first(),
+            !(part is PlaceHolder) ==> final(elems).rest@ == old(elems).rest@,
+//@   >>>
+//@   mutant template_expr_not_rendered "Self::translate_expr(expr, ops, root); ops.push(Op::Render, pos);" => "Self::translate_expr(expr, ops, root); ops.push(Op::Noop, pos);" expect translate_template_part
+//@ end
+
+// vm.rs `op_new_scope`: `NewScope(j)` at index i runs the ops behind it in a child VM (a snapshot of the current
+// bindings) up to the `Return`, takes that VM's result and jumps by j: i + j must be the `Return`, so that
+// execution continues behind it.  Inside the scope `item` is bound to the argument with `BindOver` - the reference
+// gives `item` this meaning whatever else it names outside, so the strict `Bind` (an error if `item` is already
+// bound) would be wrong - and the rendered template pieces follow.  A template that does not parse compiles to a
+// failure: a message and `Bang`.
+pub open spec fn format_single_emits(a: OpsMap, b: OpsMap, def: FormatDef, expr: Expression) -> bool {
+    let n0 = a.ops@.len() as int;
+    let n = b.ops@.len() as int;
+    &&& appended(a, b)
+    &&& if !expr_template_ok(def.template@) {
+            n == n0 + 2 && (b.ops@[n0] matches Op::Val(Primitive::Str(_))) && b.ops@[n0 + 1] == Op::Bang
+        } else {
+            &&& (b.ops@[n0] matches Op::NewScope(j) && (small(b.ops@) ==> continues_at(n0, j, n)))
+            &&& (b.ops@[n0 + 1] matches Op::Sym(s) && s@ == "item"@)
+            &&& exists|a1: int, m: int| #[trigger] frag(expr, a1, m) && a1 == n0 + 2 && code_at(expr, b.ops@, a1, m)
+                    && b.ops@[m] == Op::BindOver && m + 1 < n - 1
+            &&& b.ops@[n - 1] == Op::Return
+        }
+}
+// what the loop over the template pieces must keep intact
+pub open spec fn format_single_head(a: OpsMap, s: Seq<Op>, expr: Expression) -> bool {
+    let n0 = a.ops@.len() as int;
+    &&& s[n0] == Op::Noop
+    &&& (s[n0 + 1] matches Op::Sym(t) && t@ == "item"@)
+    &&& exists|a1: int, m: int| #[trigger] frag(expr, a1, m) && a1 == n0 + 2 && code_at(expr, s, a1, m)
+            && s[m] == Op::BindOver && m + 1 < s.len()
+}
+//@ extract src/build/opcode/translate.rs :: impl AST :: fn translate_expr :: arm "FormatArgs::Single(expr) =>"
+//@   wrap <<<
+fn format_single_arm(def: FormatDef, expr: Box<Expression>, ops: &mut OpsMap, root: &VPath)
+$BODY
+//@   >>>
+//@   rule R1
+//@   subst "let mut parts_iter = parts.drain(0..);" => "let mut parts_iter = verif_drain_all(&mut parts);"
+//@   subst "let mut elems = Vec::new();" => "let mut elems: Vec<Expression> = Vec::new();"
+//@   subst "let mut elems_iter = elems.drain(0..);" => "let mut elems_iter = verif_drain_all(&mut elems);"
+//@   subst "for p in parts_iter {" => "while let Some(p) = parts_iter.next() {"
+//@   subst all "Self::translate_template_part" => "translate_template_part"
+//@   subst all "Self::translate_expr" => "translate_expr"
+//@   subst all ".into()" => ".vinto()"
+//@   subst all "verif_msg()" => "verif_msg().vinto()"
+//@   sig <<<
+        ensures format_single_emits(*old(ops), *final(ops), def, *expr)
+//@   >>>
+//@   loop 1 <<<
+                            invariant
+                                no_ph_parts(parts_iter.rest@),
+                                appended(*old(ops), *ops),
+                                scope_idx == old(ops).ops@.len(),
+                                format_single_head(*old(ops), ops.ops@, *expr),
+                            decreases parts_iter.rest@.len()
+//@   >>>
+//@   mutant fmt_scope_offset_plus_one "let jump_idx = (ops.len() - 1 - scope_idx) as i32;" => "let jump_idx = (ops.len() - scope_idx) as i32;" expect format_single_arm
+//@   mutant fmt_scope_offset_before_return "ops.push(Op::Return, expr_pos); let jump_idx = (ops.len() - 1 - scope_idx) as i32;" => "let jump_idx = (ops.len() - 1 - scope_idx) as i32; ops.push(Op::Return, expr_pos);" expect format_single_arm
+//@   mutant fmt_item_strict_bind "ops.push(Op::BindOver, expr_pos.clone());" => "ops.push(Op::Bind, expr_pos.clone());" expect format_single_arm
+//@   mutant fmt_item_sym_after_value "ops.push(Op::Sym(\"item\".into()), expr.pos().clone()); Self::translate_expr(*expr, ops, root);" => "let item_pos = expr.pos().clone(); Self::translate_expr(*expr, ops, root); ops.push(Op::Sym(\"item\".into()), item_pos);" expect format_single_arm
+//@   mutant fmt_wrong_scope_op "ops.replace(scope_idx, Op::NewScope(jump_idx));" => "ops.replace(scope_idx, Op::Jump(jump_idx));" expect format_single_arm
+//@ end
+
+// ---------- module ----------
+// AST::translate_stmts (R8) - ASSUMED: it only appends (possibly nothing); labelled like an expression's code.
+pub uninterp spec fn stmts_frag(st: Vec<Statement>, a: int, b: int) -> bool;
+pub uninterp spec fn stmts_op_at(st: Vec<Statement>, a: int, b: int, k: int, op: Op) -> bool;
+pub open spec fn stmts_code_at(st: Vec<Statement>, s: Seq<Op>, a: int, b: int) -> bool {
+    &&& stmts_frag(st, a, b)
+    &&& 0 <= a <= b <= s.len()
+    &&& forall|k: int| a <= k < b ==> stmts_op_at(st, a, b, k, #[trigger] s[k])
+}
+#[verifier::external_body]
+fn translate_stmts(stmts: Vec<Statement>, ops: &mut OpsMap, root: &VPath)
+    ensures
+        extends(*old(ops), *final(ops)),
+        stmts_code_at(stmts, final(ops).ops@, old(ops).ops@.len() as int, final(ops).ops@.len() as int),
+{ unimplemented!() }
+
+// `module { params } => (out) { statements }`:
+//   InitTuple, then per parameter  Sym(name) | code(default) | Field  (the parameter tuple);
+//   with an out expression: InitThunk(j) | code(out) | Return - vm.rs `op_thunk` pushes the thunk's own index (the
+//     module later runs the out expression from there up to that `Return`) and jumps: it must continue exactly at
+//     the `Module` op;
+//   Module(j) | Bind | code(statements) | Return - vm.rs `op_module` records its own index as the module's entry (a
+//     module instance runs from the `Bind`, which binds `mod`, to the `Return`) and jumps: it must continue behind the
+//     `Return`, the end of the fragment.
+// `bs[c]` is the index behind parameter c's `Field` (see `fields_at`).
+pub open spec fn module_tail(def: ModuleDef, s: Seq<Op>, t1: int) -> bool {
+    let n = s.len() as int;
+    &&& 0 <= t1 && t1 + 2 < n
+    &&& (s[t1] matches Op::Module(j) && (small(s) ==> continues_at(t1, j, n)))
+    &&& s[t1 + 1] == Op::Bind
+    &&& stmts_code_at(def.statements, s, t1 + 2, n - 1)
+    &&& s[n - 1] == Op::Return
+}
+pub open spec fn module_emits(a: OpsMap, b: OpsMap, def: ModuleDef) -> bool {
+    let n0 = a.ops@.len() as int;
+    let s = b.ops@;
+    &&& appended(a, b)
+    &&& s[n0] == Op::InitTuple
+    &&& exists|bs: Seq<int>| #[trigger] ends(bs) && fields_at(def.arg_set@, s, n0 + 1, bs, def.arg_set@.len() as int) && {
+            let t0 = seg_start(n0 + 1, bs, def.arg_set@.len() as int);
+            match def.out_expr {
+                None => module_tail(def, s, t0),
+                Some(e) => exists|a1: int, m: int| #[trigger] frag(*e, a1, m) && a1 == t0 + 1
+                    && (s[t0] matches Op::InitThunk(j) && (small(s) ==> continues_at(t0, j, m + 1)))
+                    && code_at(*e, s, a1, m) && s[m] == Op::Return && module_tail(def, s, m + 1),
+            }
+        }
+}
+//@ extract src/build/opcode/translate.rs :: impl AST :: fn translate_expr :: arm "Expression::Module(def) =>"
+//@   wrap <<<
+fn module_arm(def: ModuleDef, ops: &mut OpsMap, root: &VPath)
+{
+    let ghost mut bs: Seq<int> = Seq::empty();      // ghost: where each parameter's ops end
+$BODY
+}
+//@   >>>
+//@   subst all "Self::translate_expr" => "translate_expr"
+//@   subst all "Self::translate_stmts" => "translate_stmts"
+//@   sig <<<
+        ensures module_emits(*old(ops), *final(ops), def)
+//@   >>>
+//@   loop 1 iter it
+//@   loop 1 <<<
+                    invariant
+                        it.seq() == def.arg_set@,
+                        appended(*old(ops), *ops),
+                        ops.ops@[old(ops).ops@.len() as int] == Op::InitTuple,
+                        ends(bs),
+                        fields_at(def.arg_set@, ops.ops@, (old(ops).ops@.len() + 1) as int, bs, it.index@),
+                        ops.ops@.len() == seg_start((old(ops).ops@.len() + 1) as int, bs, it.index@),
+//@   >>>
+//@   after "ops.push(Op::Field, t.pos);" <<<
+                    proof { bs = bs.push(ops.ops@.len() as int); }
+//@   >>>
+//@   mutant module_offset_plus_one "let jptr = ops.len() - idx - 1; ops.replace(idx, Op::Module(jptr as i32));" => "let jptr = ops.len() - idx; ops.replace(idx, Op::Module(jptr as i32));" expect module_arm
+//@   mutant module_thunk_offset_short "let jptr = ops.len() - idx - 1; ops.replace(idx, Op::InitThunk(jptr as i32));" => "let jptr = ops.len() - idx - 2; ops.replace(idx, Op::InitThunk(jptr as i32));" expect module_arm
+//@   mutant module_thunk_behind_module "ops.replace(idx, Op::InitThunk(jptr as i32)); } ops.push(Op::Noop, def.pos.clone()); let idx = ops.len() - 1;" => "ops.replace(idx, Op::InitThunk(jptr as i32)); } let idx = ops.len() - 1; ops.push(Op::Noop, def.pos.clone());" expect module_arm
+//@   mutant module_mod_not_bound "ops.push(Op::Bind, def.pos.clone()); Self::translate_stmts" => "ops.push(Op::Pop, def.pos.clone()); Self::translate_stmts" expect module_arm
+//@   mutant module_out_no_return "ops.push(Op::Return, expr_pos.clone());" => "ops.push(Op::Noop, expr_pos.clone());" expect module_arm
+//@   mutant module_param_field_before_value "Self::translate_expr(e, ops, root); ops.push(Op::Field, t.pos);" => "ops.push(Op::Field, t.pos); Self::translate_expr(e, ops, root);" expect module_arm
+//@ end
+
+// ---------- include / import (no operands) ----------
+//@ extract src/ast/mod.rs :: struct IncludeDef
+//@   rule R0
+//@ end
+//@ extract src/ast/mod.rs :: struct ImportDef
+//@   rule R0
+//@ end
+// exactly three ops: the importer's name, the path (on top), the hook (runtime.rs `include` pops path, then type)
+pub open spec fn include_emits(a: OpsMap, b: OpsMap, def: IncludeDef) -> bool {
+    let n0 = a.ops@.len() as int;
+    &&& appended(a, b)
+    &&& b.ops@.len() == n0 + 3
+    &&& b.ops@[n0] == Op::Val(Primitive::Str(def.typ.fragment))
+    &&& b.ops@[n0 + 1] == Op::Val(Primitive::Str(def.path.fragment))
+    &&& b.ops@[n0 + 2] == Op::Runtime(Hook::Include)
+}
+//@ extract src/build/opcode/translate.rs :: impl AST :: fn translate_expr :: arm "Expression::Include(def) =>"
+//@   wrap <<<
+fn include_arm(def: IncludeDef, ops: &mut OpsMap, root: &VPath)
+$BODY
+//@   >>>
+//@   sig <<<
+        ensures include_emits(*old(ops), *final(ops), def)
+//@   >>>
+//@   mutant include_type_path_swapped "ops.push(Op::Val(Primitive::Str(def.typ.fragment)), def.typ.pos); ops.push(Op::Val(Primitive::Str(def.path.fragment)), def.path.pos);" => "ops.push(Op::Val(Primitive::Str(def.path.fragment)), def.path.pos); ops.push(Op::Val(Primitive::Str(def.typ.fragment)), def.typ.pos);" expect include_arm
+//@   mutant include_wrong_hook "Op::Runtime(Hook::Include)" => "Op::Runtime(Hook::Import)" expect include_arm
+//@ end
+
+// OpsMap::add_link records the import for the link table (a BTreeMap, opaque here - R5); ASSUMED: it touches nothing else.
+//@ extract src/build/opcode/translate.rs :: impl OpsMap :: fn add_link
+//@   opaque_body
+//@   sig <<<
+        ensures final(self).ops == old(self).ops, final(self).pos == old(self).pos, final(self).shape_map == old(self).shape_map
+//@   >>>
+//@ end
+pub open spec fn import_emits(a: OpsMap, b: OpsMap, def: ImportDef) -> bool {
+    let n0 = a.ops@.len() as int;
+    &&& appended(a, b)
+    &&& b.ops@.len() == n0 + 2
+    &&& b.ops@[n0] == Op::Val(Primitive::Str(def.path.fragment))
+    &&& b.ops@[n0 + 1] == Op::Runtime(Hook::Import)
+}
+//@ extract src/build/opcode/translate.rs :: impl AST :: fn translate_expr :: arm "Expression::Import(def) =>"
+//@   wrap <<<
+fn import_arm(def: ImportDef, ops: &mut OpsMap, root: &VPath)
+$BODY
+//@   >>>
+//@   sig <<<
+        ensures import_emits(*old(ops), *final(ops), def)
+//@   >>>
+//@   mutant import_wrong_hook "Op::Runtime(Hook::Import)" => "Op::Runtime(Hook::Include)" expect import_arm
+//@   mutant import_no_path "ops.push(Op::Val(Primitive::Str(def.path.fragment)), def.path.pos);" => "ops.push(Op::Val(Primitive::Empty), def.path.pos);" expect import_arm
 //@ end
 
 // ---------- statements ----------
@@ -752,21 +1101,6 @@ pub open spec fn let_emits(a: OpsMap, b: OpsMap, def: LetDef) -> bool {
                })
     &&& b.ops@[n - 1] == Op::Bind
 }
-//@ extract src/build/opcode/translate.rs :: impl AST :: fn translate_stmt :: arm "Statement::Let(def) =>"
-//@   wrap <<<
-fn stmt_let_arm(def: Box<LetDef>, ops: &mut OpsMap, root: &VPath)
-$BODY
-//@   >>>
-//@   subst all "Self::translate_expr" => "translate_expr"
-//@   sig <<<
-        ensures let_emits(*old(ops), *final(ops), *def)
-//@   >>>
-//@   mutant let_bind_over "ops.push(Op::Bind, def.pos);" => "ops.push(Op::BindOver, def.pos);" expect stmt_let_arm
-//@   mutant let_value_before_name "ops.push(Op::Sym(binding), def.name.pos); Self::translate_expr(def.value, ops, root);" => "Self::translate_expr(def.value, ops, root); ops.push(Op::Sym(binding), def.name.pos);" expect stmt_let_arm
-//@   mutant let_constraint_unchecked "ops.push(Op::CheckConstraint, def.pos.clone());" => "" expect stmt_let_arm
-//@   mutant let_check_after_bind "ops.push(Op::CheckConstraint, def.pos.clone()); } ops.push(Op::Bind, def.pos);" => "ops.push(Op::Bind, def.pos.clone()); ops.push(Op::CheckConstraint, def.pos); return; } ops.push(Op::Bind, def.pos);" expect stmt_let_arm
-//@ end
-
 // `constraint name = expr;`: the name is first bound STRICTLY (so a collision with an existing binding is an error,
 // as for `let`) to an empty constraint, then the value is evaluated (it may refer to the name) and only this
 // statement's own pre-binding is overwritten with `BindOver`.
@@ -781,52 +1115,416 @@ pub open spec fn constraint_stmt_emits(a: OpsMap, b: OpsMap, def: ConstraintBind
     &&& code_at(def.value, b.ops@, n0 + 4, n - 1)
     &&& b.ops@[n - 1] == Op::BindOver
 }
-//@ extract src/build/opcode/translate.rs :: impl AST :: fn translate_stmt :: arm "Statement::Constraint(def) =>"
-//@   wrap <<<
-fn stmt_constraint_arm(def: ConstraintBindingDef, ops: &mut OpsMap, root: &VPath)
-$BODY
-//@   >>>
+// The whole statement translator: which layout each kind of statement gets.
+//   expression statement: the value is computed and dropped (`Pop`);  assert: the value, then the assert hook;
+//   out: the converter's name, the value, the out hook.
+//@ extract src/build/opcode/translate.rs :: impl AST :: fn translate_stmt
+//@   no_impl
+//@   subst "root: &Path" => "root: &VPath"
 //@   subst all "Self::translate_expr" => "translate_expr"
 //@   sig <<<
-        ensures constraint_stmt_emits(*old(ops), *final(ops), def)
+        ensures
+            match stmt {
+                Statement::Expression(e) => unary_emits(*old(ops), *final(ops), e, seq![Op::Pop]),
+                Statement::Assert(_, e) => unary_emits(*old(ops), *final(ops), e, seq![Op::Runtime(Hook::Assert)]),
+                Statement::Let(def) => let_emits(*old(ops), *final(ops), *def),
+                Statement::Constraint(def) => constraint_stmt_emits(*old(ops), *final(ops), def),
+                Statement::Output(_, tok, e) => bracketed_emits(*old(ops), *final(ops), Op::Val(Primitive::Str(tok.fragment)), e, Op::Runtime(Hook::Out)),
+            },
 //@   >>>
-//@   mutant constraint_prebind_over "ops.push(Op::Bind, def.pos.clone());" => "ops.push(Op::BindOver, def.pos.clone());" expect stmt_constraint_arm
-//@   mutant constraint_rebind_strict "ops.push(Op::BindOver, def.pos);" => "ops.push(Op::Bind, def.pos);" expect stmt_constraint_arm
+//@   mutant let_bind_over "ops.push(Op::Bind, def.pos);" => "ops.push(Op::BindOver, def.pos);" expect translate_stmt
+//@   mutant let_value_before_name "ops.push(Op::Sym(binding), def.name.pos); Self::translate_expr(def.value, ops, root); if" => "Self::translate_expr(def.value, ops, root); ops.push(Op::Sym(binding), def.name.pos); if" expect translate_stmt
+//@   mutant let_constraint_unchecked "ops.push(Op::CheckConstraint, def.pos.clone());" => "" expect translate_stmt
+//@   mutant let_check_after_bind "ops.push(Op::CheckConstraint, def.pos.clone()); } ops.push(Op::Bind, def.pos);" => "ops.push(Op::Bind, def.pos.clone()); ops.push(Op::CheckConstraint, def.pos); return; } ops.push(Op::Bind, def.pos);" expect translate_stmt
+//@   mutant constraint_prebind_over "ops.push(Op::Bind, def.pos.clone());" => "ops.push(Op::BindOver, def.pos.clone());" expect translate_stmt
+//@   mutant constraint_rebind_strict "ops.push(Op::BindOver, def.pos);" => "ops.push(Op::Bind, def.pos);" expect translate_stmt
+//@   mutant stmt_expr_not_popped "ops.push(Op::Pop, expr_pos);" => "ops.push(Op::Noop, expr_pos);" expect translate_stmt
+//@   mutant stmt_assert_wrong_hook "Op::Runtime(Hook::Assert)" => "Op::Runtime(Hook::Out)" expect translate_stmt
+//@   mutant stmt_out_wrong_hook "Op::Runtime(Hook::Out)" => "Op::Runtime(Hook::Convert)" expect translate_stmt
+//@   mutant stmt_out_name_after_value "ops.push(Op::Val(Primitive::Str(tok.fragment)), tok.pos); Self::translate_expr(expr, ops, root);" => "Self::translate_expr(expr, ops, root); ops.push(Op::Val(Primitive::Str(tok.fragment)), tok.pos);" expect translate_stmt
 //@ end
 
-// expression statement: the value is computed and dropped
-//@ extract src/build/opcode/translate.rs :: impl AST :: fn translate_stmt :: arm "Statement::Expression(expr) =>"
-//@   wrap <<<
-fn stmt_expr_arm(expr: Expression, ops: &mut OpsMap, root: &VPath)
-$BODY
-//@   >>>
+// ---------- values, copy, call, selector ----------
+// A literal is one `Val`, a name one `DeRef`; a tuple literal is InitTuple and its fields, a list literal InitList and
+// its elements each followed by `Element`.
+pub open spec fn value_code_at(v: Value, s: Seq<Op>, a: int, b: int) -> bool {
+    &&& 0 <= a < b <= s.len()
+    &&& match v {
+            Value::Int(x) => b == a + 1 && s[a] == Op::Val(Primitive::Int(x.val)),
+            Value::Float(x) => b == a + 1 && s[a] == Op::Val(Primitive::Float(x.val)),
+            Value::Str(x) => b == a + 1 && s[a] == Op::Val(Primitive::Str(x.val)),
+            Value::Empty(_) => b == a + 1 && s[a] == Op::Val(Primitive::Empty),
+            Value::Boolean(x) => b == a + 1 && s[a] == Op::Val(Primitive::Bool(x.val)),
+            Value::Symbol(x) => b == a + 1 && s[a] == Op::DeRef(x.val),
+            Value::Tuple(flds) => s[a] == Op::InitTuple
+                && exists|bs: Seq<int>| #[trigger] ends(bs) && fields_at(flds.val@, s, a + 1, bs, flds.val@.len() as int)
+                        && seg_start(a + 1, bs, flds.val@.len() as int) == b,
+            Value::List(def) => s[a] == Op::InitList
+                && exists|bs: Seq<int>| #[trigger] ends(bs) && exprs_at(def.elems@, s, a + 1, bs, def.elems@.len() as int, true)
+                        && seg_start(a + 1, bs, def.elems@.len() as int) == b,
+        }
+}
+//@ extract src/build/opcode/translate.rs :: impl AST :: fn translate_value
+//@   no_impl
+//@   subst "root: &Path" => "root: &VPath"
 //@   subst all "Self::translate_expr" => "translate_expr"
 //@   sig <<<
-        ensures unary_emits(*old(ops), *final(ops), expr, seq![Op::Pop])
+        ensures
+            appended(*old(ops), *final(ops)),
+            at(final(ops).ops@.len() as int),
+            value_code_at(value, final(ops).ops@, old(ops).ops@.len() as int, final(ops).ops@.len() as int),
 //@   >>>
-//@   mutant stmt_expr_not_popped "ops.push(Op::Pop, expr_pos);" => "ops.push(Op::Noop, expr_pos);" expect stmt_expr_arm
+//@   body_start <<<
+        let ghost mut bs: Seq<int> = Seq::empty();      // ghost: where each field's / element's ops end
+//@   >>>
+//@   loop 1 iter it
+//@   loop 1 <<<
+                    invariant
+                        it.seq() == flds.val@,
+                        appended(*old(ops), *ops),
+                        ops.ops@[old(ops).ops@.len() as int] == Op::InitTuple,
+                        ends(bs),
+                        fields_at(flds.val@, ops.ops@, (old(ops).ops@.len() + 1) as int, bs, it.index@),
+                        ops.ops@.len() == seg_start((old(ops).ops@.len() + 1) as int, bs, it.index@),
+//@   >>>
+//@   after "ops.push(Op::Field, k.pos.clone());" <<<
+                    proof { bs = bs.push(ops.ops@.len() as int); }
+//@   >>>
+//@   loop 2 iter it
+//@   loop 2 <<<
+                    invariant
+                        it.seq() == els.elems@,
+                        appended(*old(ops), *ops),
+                        ops.ops@[old(ops).ops@.len() as int] == Op::InitList,
+                        ends(bs),
+                        exprs_at(els.elems@, ops.ops@, (old(ops).ops@.len() + 1) as int, bs, it.index@, true),
+                        ops.ops@.len() == seg_start((old(ops).ops@.len() + 1) as int, bs, it.index@),
+//@   >>>
+//@   after "ops.push(Op::Element, el_pos);" <<<
+                    proof { bs = bs.push(ops.ops@.len() as int); }
+//@   >>>
+//@   mutant value_symbol_as_string "ops.push(Op::DeRef(s.val), s.pos);" => "ops.push(Op::Val(Primitive::Str(s.val)), s.pos);" expect translate_value
+//@   mutant value_tuple_field_before_value "Self::translate_expr(v, ops, root); ops.push(Op::Field, k.pos.clone());" => "ops.push(Op::Field, k.pos.clone()); Self::translate_expr(v, ops, root);" expect translate_value
+//@   mutant value_list_element_before_value "Self::translate_expr(el, ops, root); ops.push(Op::Element, el_pos);" => "ops.push(Op::Element, el_pos); Self::translate_expr(el, ops, root);" expect translate_value
+//@   mutant value_list_is_tuple "ops.push(Op::InitList, els.pos);" => "ops.push(Op::InitTuple, els.pos);" expect translate_value
+//@   mutant value_tuple_is_list "ops.push(Op::InitTuple, flds.pos);" => "ops.push(Op::InitList, flds.pos);" expect translate_value
 //@ end
-//@ extract src/build/opcode/translate.rs :: impl AST :: fn translate_stmt :: arm "Statement::Assert(pos, expr) =>"
-//@   wrap <<<
-fn stmt_assert_arm(pos: Position, expr: Expression, ops: &mut OpsMap, root: &VPath)
-$BODY
-//@   >>>
+
+// `base{ f = e, .. }` behind the base's code: PushSelf (the base becomes `self`), InitTuple and the override fields,
+// Cp (vm.rs `op_copy` pops the overrides and the base), PopSelf.
+pub open spec fn copy_code_at(flds: Seq<(Token, Option<Expression>, Expression)>, s: Seq<Op>, a: int, b: int) -> bool {
+    &&& 0 <= a && a + 4 <= b <= s.len()
+    &&& s[a] == Op::PushSelf
+    &&& s[a + 1] == Op::InitTuple
+    &&& exists|bs: Seq<int>| #[trigger] ends(bs) && fields_at(flds, s, a + 2, bs, flds.len() as int) && seg_start(a + 2, bs, flds.len() as int) == b - 2
+    &&& s[b - 2] == Op::Cp
+    &&& s[b - 1] == Op::PopSelf
+}
+//@ extract src/build/opcode/translate.rs :: impl AST :: fn translate_copy
+//@   no_impl
+//@   subst "root: &Path" => "root: &VPath"
 //@   subst all "Self::translate_expr" => "translate_expr"
 //@   sig <<<
-        ensures unary_emits(*old(ops), *final(ops), expr, seq![Op::Runtime(Hook::Assert)])
+        ensures
+            appended(*old(ops), *final(ops)),
+            at(final(ops).ops@.len() as int),
+            copy_code_at(flds@, final(ops).ops@, old(ops).ops@.len() as int, final(ops).ops@.len() as int),
 //@   >>>
-//@   mutant stmt_assert_wrong_hook "Op::Runtime(Hook::Assert)" => "Op::Runtime(Hook::Out)" expect stmt_assert_arm
+//@   body_start <<<
+        let ghost mut bs: Seq<int> = Seq::empty();      // ghost: where each field's ops end
+//@   >>>
+//@   loop 1 iter it
+//@   loop 1 <<<
+            invariant
+                it.seq() == flds@,
+                appended(*old(ops), *ops),
+                ops.ops@[old(ops).ops@.len() as int] == Op::PushSelf,
+                ops.ops@[(old(ops).ops@.len() + 1) as int] == Op::InitTuple,
+                ends(bs),
+                fields_at(flds@, ops.ops@, (old(ops).ops@.len() + 2) as int, bs, it.index@),
+                ops.ops@.len() == seg_start((old(ops).ops@.len() + 2) as int, bs, it.index@),
+//@   >>>
+//@   after "ops.push(Op::Field, t.pos.clone());" <<<
+            proof { bs = bs.push(ops.ops@.len() as int); }
+//@   >>>
+//@   mutant copy_no_self "ops.push(Op::PushSelf, pos.clone());" => "ops.push(Op::Noop, pos.clone());" expect translate_copy
+//@   mutant copy_popself_before_cp "ops.push(Op::Cp, pos.clone()); ops.push(Op::PopSelf, pos);" => "ops.push(Op::PopSelf, pos.clone()); ops.push(Op::Cp, pos);" expect translate_copy
+//@   mutant copy_name_after_value "ops.push(Op::Sym(t.fragment), t.pos.clone()); Self::translate_expr(e, ops, root);" => "Self::translate_expr(e, ops, root); ops.push(Op::Sym(t.fragment), t.pos.clone());" expect translate_copy
 //@ end
-//@ extract src/build/opcode/translate.rs :: impl AST :: fn translate_stmt :: arm "Statement::Output(pos, tok, expr) =>"
+
+//@ extract src/build/opcode/translate.rs :: impl AST :: fn translate_expr :: arm "Expression::Simple(v) =>"
 //@   wrap <<<
-fn stmt_out_arm(pos: Position, tok: Token, expr: Expression, ops: &mut OpsMap, root: &VPath)
+fn simple_arm(v: Value, ops: &mut OpsMap, root: &VPath)
+$BODY
+//@   >>>
+//@   subst all "Self::translate_value" => "translate_value"
+//@   sig <<<
+        ensures appended(*old(ops), *final(ops)),
+            value_code_at(v, final(ops).ops@, old(ops).ops@.len() as int, final(ops).ops@.len() as int),
+//@   >>>
+//@ end
+
+// `base{..}`: the base's code, then the copy
+//@ extract src/build/opcode/translate.rs :: impl AST :: fn translate_expr :: arm "Expression::Copy(def) =>"
+//@   wrap <<<
+fn copy_arm(def: CopyDef, ops: &mut OpsMap, root: &VPath)
+$BODY
+//@   >>>
+//@   subst all "Self::translate_value" => "translate_value"
+//@   subst all "Self::translate_copy" => "translate_copy"
+//@   sig <<<
+        ensures appended(*old(ops), *final(ops)),
+            exists|m: int| #[trigger] at(m) && value_code_at(def.selector, final(ops).ops@, old(ops).ops@.len() as int, m)
+                && copy_code_at(def.fields@, final(ops).ops@, m, final(ops).ops@.len() as int),
+//@   >>>
+//@   mutant copy_base_after_fields "Self::translate_value(def.selector, ops, root); Self::translate_copy(ops, def.fields, def.pos, root);" => "Self::translate_copy(ops, def.fields, def.pos.clone(), root); Self::translate_value(def.selector, ops, root);" expect copy_arm
+//@ end
+
+// `f(a, b)`: the arguments' code in order, the argument count, the function, FCall (vm.rs `op_fcall` pops the function,
+// then the count; `fcall_impl` pops the arguments last to first).
+pub open spec fn call_emits(a: OpsMap, b: OpsMap, def: CallDef) -> bool {
+    let n0 = a.ops@.len() as int;
+    let n = b.ops@.len() as int;
+    let s = b.ops@;
+    let argc = def.arglist@.len() as int;
+    &&& appended(a, b)
+    &&& exists|bs: Seq<int>| #[trigger] ends(bs) && exprs_at(def.arglist@, s, n0, bs, argc, false) && {
+            let t = seg_start(n0, bs, argc);
+            &&& s[t] == Op::Val(Primitive::Int(argc as i64))
+            &&& value_code_at(def.funcref, s, t + 1, n - 1)
+        }
+    &&& s[n - 1] == Op::FCall
+}
+//@ extract src/build/opcode/translate.rs :: impl AST :: fn translate_expr :: arm "} } Expression::Call(call_def) =>"
+//@   wrap <<<
+fn call_arm(call_def: CallDef, ops: &mut OpsMap, root: &VPath)
+{
+    let ghost mut bs: Seq<int> = Seq::empty();      // ghost: where each argument's ops end
+    proof { axiom_vec_len_isize(&call_def.arglist); }
+$BODY
+}
+//@   >>>
+//@   subst all "Self::translate_expr" => "translate_expr"
+//@   subst all "Self::translate_value" => "translate_value"
+//@   sig <<<
+        ensures call_emits(*old(ops), *final(ops), call_def)
+//@   >>>
+//@   loop 1 iter it
+//@   loop 1 <<<
+                    invariant
+                        it.seq() == call_def.arglist@,
+                        extends(*old(ops), *ops),
+                        ends(bs),
+                        exprs_at(call_def.arglist@, ops.ops@, old(ops).ops@.len() as int, bs, it.index@, false),
+                        ops.ops@.len() == seg_start(old(ops).ops@.len() as int, bs, it.index@),
+//@   >>>
+//@   after "translate_expr(e, ops, root);" <<<
+                    proof { bs = bs.push(ops.ops@.len() as int); }
+//@   >>>
+//@   mutant call_count_after_func "ops.push(Op::Val(Primitive::Int(count)), call_def.pos.clone());" => "" expect call_arm
+//@   mutant call_count_off_by_one "let count = call_def.arglist.len() as i64;" => "let count = call_def.arglist.len() as i64 + 1;" expect call_arm
+//@   mutant call_no_fcall "ops.push(Op::FCall, func_pos);" => "ops.push(Op::Noop, func_pos);" expect call_arm
+//@ end
+
+// ---------- selector `left.right` ----------
+// vm.rs `op_index` pops the index (top), then the indexed value: code(left), then the selector, then `Index`.
+// A bare word on the right is a field NAME (a string), not a variable.  `left.f{..}` indexes, then copies;
+// `left.f(args)` pushes the arguments and their count first, then indexes, then calls.
+pub open spec fn sel_ok(v: Value) -> bool { v is Str || v is Symbol || v is Int }
+pub open spec fn sel_op(v: Value) -> Op {
+    match v {
+        Value::Str(x) => Op::Val(Primitive::Str(x.val)),
+        Value::Symbol(x) => Op::Val(Primitive::Str(x.val)),
+        Value::Int(x) => Op::Val(Primitive::Int(x.val)),
+        _ => Op::Noop,
+    }
+}
+pub open spec fn dot_emits(a: OpsMap, b: OpsMap, def: BinaryOpDef) -> bool {
+    let n0 = a.ops@.len() as int;
+    let n = b.ops@.len() as int;
+    let s = b.ops@;
+    &&& appended(a, b)
+    &&& match *def.right {
+            Expression::Copy(cd) => exists|m: int| #[trigger] frag(*def.left, n0, m) && code_at(*def.left, s, n0, m)
+                && s[m] == sel_op(cd.selector) && s[m + 1] == Op::Index && copy_code_at(cd.fields@, s, m + 2, n),
+            Expression::Call(cd) => exists|bs: Seq<int>| #[trigger] ends(bs) && exprs_at(cd.arglist@, s, n0, bs, cd.arglist@.len() as int, false) && {
+                    let t = seg_start(n0, bs, cd.arglist@.len() as int);
+                    &&& s[t] == Op::Val(Primitive::Int(cd.arglist@.len() as i64))
+                    &&& exists|a1: int, m: int| #[trigger] frag(*def.left, a1, m) && a1 == t + 1 && code_at(*def.left, s, a1, m)
+                            && m + 3 == n && s[m] == sel_op(cd.funcref) && s[m + 1] == Op::Index && s[m + 2] == Op::FCall
+                },
+            Expression::Simple(Value::Symbol(name)) => exists|m: int| #[trigger] frag(*def.left, n0, m) && code_at(*def.left, s, n0, m)
+                && code_at(Expression::Simple(Value::Str(name)), s, m, n - 1) && s[n - 1] == Op::Index,
+            other => exists|m: int| #[trigger] frag(*def.left, n0, m) && code_at(*def.left, s, n0, m)
+                && code_at(other, s, m, n - 1) && s[n - 1] == Op::Index,
+        }
+}
+//@ extract src/build/opcode/translate.rs :: impl AST :: fn translate_expr :: arm "BinaryExprType::DOT =>"
+//@   wrap <<<
+fn bin_dot_arm(def: BinaryOpDef, ops: &mut OpsMap, root: &VPath)
+{
+    let ghost mut bs: Seq<int> = Seq::empty();      // ghost: where each call argument's ops end
+    proof { if *def.right is Call { axiom_vec_len_isize(&(*def.right)->Call_0.arglist); } }
+$BODY
+}
+//@   >>>
+//@   subst all "Self::translate_expr" => "translate_expr"
+//@   subst all "Self::translate_copy" => "translate_copy"
+//@   sig <<<
+        requires
+            // the two `unreachable!()`s: the parser only builds copy / call selectors from a symbol (parse/mod.rs)
+            *def.right matches Expression::Copy(cd) ==> sel_ok(cd.selector),
+            *def.right matches Expression::Call(cd) ==> sel_ok(cd.funcref),
+        ensures dot_emits(*old(ops), *final(ops), def)
+//@   >>>
+//@   loop 1 iter it
+//@   loop 1 <<<
+                                    invariant
+                                        it.seq() == call_def.arglist@,
+                                        extends(*old(ops), *ops),
+                                        ends(bs),
+                                        exprs_at(call_def.arglist@, ops.ops@, old(ops).ops@.len() as int, bs, it.index@, false),
+                                        ops.ops@.len() == seg_start(old(ops).ops@.len() as int, bs, it.index@),
+//@   >>>
+//@   after "translate_expr(e, ops, root);" <<<
+                                    proof { bs = bs.push(ops.ops@.len() as int); }
+//@   >>>
+//@   mutant dot_right_first "Self::translate_expr(*def.left, ops, root); Self::translate_expr(expr, ops, root);" => "Self::translate_expr(expr, ops, root); Self::translate_expr(*def.left, ops, root);" expect bin_dot_arm
+//@   mutant dot_symbol_dereferenced "Expression::Simple(Value::Str(name)), ops, root," => "Expression::Simple(Value::Symbol(name)), ops, root," expect bin_dot_arm
+//@   mutant dot_no_index "} } ops.push(Op::Index, def.pos);" => "} } ops.push(Op::Noop, def.pos);" expect bin_dot_arm
+//@   mutant dot_call_before_index "ops.push(Op::Index, def.pos); ops.push(Op::FCall, func_pos);" => "ops.push(Op::FCall, func_pos); ops.push(Op::Index, def.pos);" expect bin_dot_arm
+//@   mutant dot_copy_without_index "ops.push(Op::Index, copy_def.pos.clone());" => "" expect bin_dot_arm
+//@   mutant dot_call_left_before_count "ops.push(Op::Val(Primitive::Int(count)), call_def.pos.clone()); Self::translate_expr(*def.left, ops, root);" => "Self::translate_expr(*def.left, ops, root); ops.push(Op::Val(Primitive::Int(count)), call_def.pos.clone());" expect bin_dot_arm
+//@ end
+
+// ---------- `left in right` ----------
+// vm.rs `op_exist` pops the key (top), then the container: code(right), then the key, then `Exist`.  A bare word on the
+// left is a field NAME when the container is a tuple and a variable otherwise; the translator expresses that by
+// compiling, in place of the left operand, the expression
+//     select (right is "tuple", <the word as a variable>) => { true = "<the word as a string>" }
+// ast constructors (R7: their generic `Into` parameters monomorphised to what these call sites pass) - ASSUMED:
+impl<T> PositionedItem<T> {
+    #[verifier::external_body]
+    pub fn new(v: T, p: Position) -> (r: Self) ensures r.val == v { unimplemented!() }
+}
+impl Token {
+    #[verifier::external_body]
+    pub fn new(f: &str, typ: TokenType, p: &Position) -> (r: Self) ensures r.fragment@ == f@, r.typ == typ { unimplemented!() }
+}
+// R0: derived Clone is structural (Rc::clone is a pointer copy)
+impl<T: Clone> Clone for PositionedItem<T> {
+    #[verifier::external_body]
+    fn clone(&self) -> (r: Self) ensures r == *self { unimplemented!() }
+}
+pub open spec fn in_desugar(ne: Expression, name: PositionedItem<Rc<str>>, right: Expression) -> bool {
+    &&& ne matches Expression::Select(sd)
+        && (*sd.val matches Expression::Binary(bd) && bd.kind is IS && *bd.left == right
+                && (*bd.right matches Expression::Simple(Value::Str(t)) && t.val@ == "tuple"@))
+        && (sd.default matches Some(d) && (*d matches Expression::Simple(Value::Symbol(n2)) && n2.val == name.val))
+        && sd.tuple@.len() == 1 && sd.tuple@[0].0.fragment@ == "true"@
+        && (sd.tuple@[0].2 matches Expression::Simple(Value::Str(n3)) && n3.val == name.val)
+}
+pub open spec fn in_emits(a: OpsMap, b: OpsMap, def: BinaryOpDef) -> bool {
+    let n0 = a.ops@.len() as int;
+    let n = b.ops@.len() as int;
+    let s = b.ops@;
+    &&& appended(a, b)
+    &&& exists|m: int| #[trigger] frag(*def.right, n0, m) && code_at(*def.right, s, n0, m) && (match *def.left {
+            Expression::Simple(Value::Symbol(name)) =>
+                exists|ne: Expression, a1: int, m2: int| #[trigger] frag(ne, a1, m2) && a1 == m && m2 == n - 1
+                    && code_at(ne, s, a1, m2) && in_desugar(ne, name, *def.right),
+            other => code_at(other, s, m, n - 1),
+        })
+    &&& s[n - 1] == Op::Exist
+}
+//@ extract src/build/opcode/translate.rs :: impl AST :: fn translate_expr :: arm "BinaryExprType::IN =>"
+//@   wrap <<<
+fn bin_in_arm(def: BinaryOpDef, ops: &mut OpsMap, root: &VPath)
 $BODY
 //@   >>>
 //@   subst all "Self::translate_expr" => "translate_expr"
+//@   subst all ".into()" => ".vinto()"
 //@   sig <<<
-        ensures bracketed_emits(*old(ops), *final(ops), Op::Val(Primitive::Str(tok.fragment)), expr, Op::Runtime(Hook::Out))
+        ensures in_emits(*old(ops), *final(ops), def)
 //@   >>>
-//@   mutant stmt_out_wrong_hook "Op::Runtime(Hook::Out)" => "Op::Runtime(Hook::Convert)" expect stmt_out_arm
+//@   mutant in_left_instead_of_right "Self::translate_expr(*def.right.clone(), ops, root);" => "Self::translate_expr(*def.left.clone(), ops, root);" expect bin_in_arm
+//@   mutant in_no_exist "ops.push(Op::Exist, def.pos.clone());" => "ops.push(Op::Index, def.pos.clone());" expect bin_in_arm
+//@   mutant in_word_always_string "default: Some(Box::new(Expression::Simple(Value::Symbol( name.clone(), )))), tuple: vec![( Token::new(\"true\", TokenType::BAREWORD, def.right.pos()), None, Expression::Simple(Value::Str(name)), )]," => "default: Some(Box::new(Expression::Simple(Value::Str( name.clone(), )))), tuple: vec![( Token::new(\"true\", TokenType::BAREWORD, def.right.pos()), None, Expression::Simple(Value::Str(name)), )]," expect bin_in_arm
+//@   mutant in_tests_wrong_type "\"tuple\".into()" => "\"list\".into()" expect bin_in_arm
+//@   mutant in_selects_on_false "Token::new(\"true\", TokenType::BAREWORD, def.right.pos())" => "Token::new(\"false\", TokenType::BAREWORD, def.right.pos())" expect bin_in_arm
+//@ end
+
+// ---------- constraint expression `in a..b | shape | ..` ----------
+// opcode/mod.rs: "BuildConstraint: each Range arm expects 2 values (start, end - Empty if open-ended), each Exact arm
+// expects 1 value"; unit constraint_vm assumes "the translator pushes the arms' values in source order, start before
+// end".  This is that assumption: per arm, in source order, code(start) | Val(Empty), code(end) | Val(Empty) for a
+// range, the expression's code for a shape; then BuildConstraint with one arm type per arm, Range for ranges.
+pub open spec fn bound_code_at(o: Option<Box<Expression>>, s: Seq<Op>, a: int, b: int) -> bool {
+    match o {
+        Some(e) => code_at(*e, s, a, b),
+        None => 0 <= a && b == a + 1 && b <= s.len() && s[a] == Op::Val(Primitive::Empty),
+    }
+}
+pub open spec fn arm_type_of(arm: ConstraintArm) -> ConstraintArmType {
+    match arm { ConstraintArm::Range(_) => ConstraintArmType::Range, ConstraintArm::Shape(_) => ConstraintArmType::Exact }
+}
+pub open spec fn arms_at(arms: Seq<ConstraintArm>, s: Seq<Op>, start: int, bs: Seq<int>, types: Seq<ConstraintArmType>, done: int) -> bool {
+    &&& bs.len() == done && types.len() == done && 0 <= done <= arms.len()
+    &&& forall|c: int| 0 <= c < done && #[trigger] case_no(c) ==> {
+            let st = seg_start(start, bs, c);
+            &&& start <= st < bs[c] <= s.len()
+            &&& types[c] == arm_type_of(arms[c])
+            &&& match arms[c] {
+                    ConstraintArm::Shape(e) => code_at(*e, s, st, bs[c]),
+                    ConstraintArm::Range(r) => match r.start {
+                        None => s[st] == Op::Val(Primitive::Empty) && bound_code_at(r.end, s, st + 1, bs[c]),
+                        Some(e) => exists|a1: int, mid: int| #[trigger] frag(*e, a1, mid) && a1 == st && code_at(*e, s, a1, mid)
+                                        && bound_code_at(r.end, s, mid, bs[c]),
+                    },
+                }
+        }
+    &&& 0 <= start <= seg_start(start, bs, done) <= s.len()
+}
+pub open spec fn constraint_emits(a: OpsMap, b: OpsMap, def: ConstraintDef) -> bool {
+    let n0 = a.ops@.len() as int;
+    let n = b.ops@.len() as int;
+    let s = b.ops@;
+    &&& appended(a, b)
+    &&& s[n - 1] matches Op::BuildConstraint(types)
+        && exists|bs: Seq<int>| #[trigger] ends(bs) && arms_at(def.arms@, s, n0, bs, types@, def.arms@.len() as int)
+                && seg_start(n0, bs, def.arms@.len() as int) == n - 1
+}
+//@ extract src/build/opcode/translate.rs :: impl AST :: fn translate_expr :: arm "Expression::Constraint(def) =>"
+//@   wrap <<<
+fn constraint_arm(def: ConstraintDef, ops: &mut OpsMap, root: &VPath)
+{
+    let ghost mut bs: Seq<int> = Seq::empty();      // ghost: where each arm's ops end
+$BODY
+}
+//@   >>>
+//@   subst all "Self::translate_expr" => "translate_expr"
+//@   sig <<<
+        ensures constraint_emits(*old(ops), *final(ops), def)
+//@   >>>
+//@   loop 1 iter it
+//@   loop 1 <<<
+                    invariant
+                        it.seq() == def.arms@,
+                        extends(*old(ops), *ops),
+                        ends(bs),
+                        arms_at(def.arms@, ops.ops@, old(ops).ops@.len() as int, bs, arm_types@, it.index@),
+                        ops.ops@.len() == seg_start(old(ops).ops@.len() as int, bs, it.index@),
+//@   >>>
+//@   before "arm_types.push" nth 1 <<<
+                            proof { bs = bs.push(ops.ops@.len() as int); }
+//@   >>>
+//@   before "arm_types.push" nth 2 <<<
+                            proof { bs = bs.push(ops.ops@.len() as int); }
+//@   >>>
+//@   mutant constraint_end_before_start "if let Some(start) = rdef.start { Self::translate_expr(*start, ops, root); }" => "if let Some(start) = rdef.end.clone() { Self::translate_expr(*start, ops, root); }" expect constraint_arm
+//@   mutant constraint_open_start_dropped "ops.push(Op::Val(Primitive::Empty), rdef.pos.clone());" => "" expect constraint_arm
+//@   mutant constraint_range_as_exact "arm_types.push(ConstraintArmType::Range);" => "arm_types.push(ConstraintArmType::Exact);" expect constraint_arm
+//@   mutant constraint_shape_as_range "arm_types.push(ConstraintArmType::Exact);" => "arm_types.push(ConstraintArmType::Range);" expect constraint_arm
 //@ end
 
 } // verus!
